@@ -176,6 +176,25 @@ pub fn run(ctx: &mut Ctx) {
             }
         }
     }
+    // a truthiness test that cannot be made (its operand fails) is an error, not "falsy": every deciding
+    // position with an operand that errors at evaluation or is ill-formed, over literal and computed collections
+    {
+        let poisons = [json!({"+": ["x"]}), json!({"in": ["a", 7]}), json!({"/": [1, 0]}), json!({"in": ["a", {"var": ""}]}), json!({"/": [1, {"var": ""}]}), json!({"==": [1]}), json!({"and": [1, {"+": ["x"]}]})];
+        for p in &poisons {
+            if !ctx.mine() {
+                continue;
+            }
+            for (coll, d) in [(json!([1, "cat"]), json!(null)), (json!({"var": "xs"}), json!({"xs": [1, "cat"]})), (json!({"var": "xs"}), json!({"xs": [0]})), (json!("ab"), json!(null)), (json!({"merge": [[0], [0]]}), json!(null)), (json!({"var": "s"}), json!({"s": "ab"}))] {
+                ctx.edge();
+                for k in ["filter", "all", "some", "none"] {
+                    ctx.check("erroring-predicate", &op(k, vec![coll.clone(), p.clone()]), &d);
+                }
+            }
+            for r in [json!({"!": [p]}), json!({"!!": [p]}), json!({"if": [p, "t", "f"]}), json!({"and": [p, 1]}), json!({"or": [p, 1]}), json!({"if": [0, "a", p, "b", "c"]}), json!({"?:": [p, 1, 2]})] {
+                ctx.check("erroring-operand", &r, &json!("data"));
+            }
+        }
+    }
     crate::spaces::render_probes(ctx, &["!", "!!"]);
     crate::spaces::type_grid_probes(ctx, &["!", "!!", "if", "and", "or", "filter", "all", "some", "none"]);
     crate::spaces::depth_probes(ctx);
